@@ -546,6 +546,27 @@ func runC11(c *Ctx) {
 						oldKey = &Term{Op: "extract", Args: []*Term{lk}, N: 0}
 					}
 				}
+				// the pair is there already: forward[key] was found and equals the value (and then, the two maps being
+				// inverse - which is what every rule of this check maintains - reverse[value] is key): nothing to evict,
+				// nothing to write
+				if fwd == "hit" && rev == "" && oldVal != nil {
+					same, effects := false, false
+					for _, cd := range p.Conds {
+						r := cd.Rel()
+						if r.B != nil && r.Op == "==" && (r.A.Key() == oldVal.Key() && isParam(r.B, 2) || r.B.Key() == oldVal.Key() && isParam(r.A, 2)) {
+							same = true
+						}
+					}
+					for i := range p.Events {
+						e := &p.Events[i]
+						if e.Kind == "mapupdate" || e.Kind == "store" && rootOf(e.Addr).Op != "alloc" || e.Kind == "call" && e.Name == "builtin.delete" {
+							effects = true
+						}
+					}
+					if same && !effects {
+						continue
+					}
+				}
 				if fwd == "" || rev == "" {
 					ok, why = false, fmt.Sprintf("a path of Add does not decide both collisions (key mapped: %q, value mapped: %q): when key and value both collide with different pairs only one stale entry is evicted", fwd, rev)
 					continue
